@@ -324,6 +324,10 @@ class Ctx:
                                 'observed': None, 'python': python, 'theorem': None})
 
     def known(self, fid, what):
+        if not any(f.get('id') == fid and (f.get('property') == self.prop or self.prop in f.get('also_affects', [])) and f.get('status') == 'known' for f in load_known()):
+            # only findings listed in the committed file are suppressed
+            self.violation('failing-input', 'finding %s is not listed for %s in known_findings.json: %s' % (fid, self.prop, what))
+            return
         self.known_hits[fid] = self.known_hits.get(fid, 0) + 1
         line = "KNOWN-FINDING: property=%s %s %s" % (self.prop, fid, what)
         if line not in self.known_lines:
